@@ -17,7 +17,8 @@ RULE = ('Generated: table with 1-6 pressures x 1-6 temperatures x 1-6 wavenumber
         'points), mode linear/exp, optional contiguous wavenumber sub-range, and one (T,P) '
         'chosen per axis as below / above / inside a cell / exactly on a node / one ulp '
         'either side of a node.  Non-trivial = the point is not on a node in both axes and '
-        'the table is not constant over the bracketing nodes; distinct by hash of the case.')
+        'the table is not constant over the bracketing nodes; distinct by hash of the case.'
+        ' Half of the cases put a history on the opacity object first: an earlier query in the other interpolation mode followed by set_interpolation_mode, or an earlier query elsewhere in the same mode.')
 ASSUMPTIONS = [
     'tolerance: |code-ref| <= 1e-13*M + 1e-11*|ref| with M the largest tabulated value among the '
     'bracketing nodes and their immediate neighbours (float64 cancellation is relative to the '
